@@ -32,9 +32,19 @@ Seg2Variants == { TOP, SUB,
                   <<"t", "o", "p", "i", "c", "s", "/">>,                      \* missing leading slash
                   <<"/">>, <<>> }
 
+\* Structured components: a project or an id that itself contains (begins with, ends with) one of
+\* the literal segments of the grammar - "projects/p/topics//topics/t" is a well-formed name whose
+\* id is "/topics/t".
+Embedded == { PRE, TOP, SUB, TOP \o TOP, SUB \o TOP,
+              <<"t", "o", "p", "i", "c", "s", "/">>, <<"/", "t", "o", "p", "i", "c", "s">>,
+              <<"s", "u", "b", "s", "c", "r", "i", "p", "t", "i", "o", "n", "s", "/">> }
+Structured == {e \o w : e \in Embedded, w \in Words(1)} \cup {w \o e : e \in Embedded, w \in Words(1)}
+
 VARIABLE case
 CaseInit == case \in {[s1 |-> a, p |-> p, s2 |-> b, id |-> i] :
                           a \in Seg1Variants, p \in Words(MaxLen), b \in Seg2Variants, i \in Words(MaxLen)}
+                     \cup {[s1 |-> PRE, p |-> p, s2 |-> b, id |-> i] : p \in Words(1), b \in {TOP, SUB}, i \in Structured}
+                     \cup {[s1 |-> PRE, p |-> p, s2 |-> b, id |-> i] : p \in Structured, b \in {TOP, SUB}, i \in Words(1)}
 CaseNext == UNCHANGED case
 CaseSpec == CaseInit /\ [][CaseNext]_case
 
